@@ -64,6 +64,12 @@ def _job(job) -> List[Dict[str, Any]]:
         w.I.track_sym_ranges = True
 
     kw = {"tau": tau_c, "limit_sigma": ls}
+    if ls == "model-truthy":
+        # the cap is switched on at the model level and the call leaves the argument at None
+        from ..ai.values import Bool
+
+        kw["limit_sigma"] = "None"
+        kw["model_overrides"] = {"limit_sigma": Bool(True, frozenset({"CTOR:limit_sigma"}), ("param", "model.limit_sigma"))}
     if sel != "none":
         kw[sel] = "list-of-mixed-int-float-bool"
     try:
@@ -149,7 +155,7 @@ def _job(job) -> List[Dict[str, Any]]:
         inst("R6.4", "HOLDS" if okp else ("UNDECIDED" if failed_lemmas else "VIOLATED"), f"posterior sigma is finite and > 0: {norm_text(ev.node, 60)}",
              "" if okp else f"interval of the stored sigma is {v.rng}", {"range": str(v.rng)}, m, fn, ln)
     # ---------------------------------------------------------------- R6.5 the clamp
-    if ls == "truthy":
+    if ls in ("truthy", "model-truthy"):
         if not clamp:
             inst("R6.5", "VIOLATED", f"limit_sigma cap ({case})", "with limit_sigma in force no store caps the posterior sigma")
         first_clamp = min((i for i, _ in clamp), default=len(evs))
@@ -218,6 +224,7 @@ def run(prog: Program, rep: Report, tier: str = "quick") -> None:
         for sel in ("ranks", "scores", "none"):
             jobs.append((i, sel, "any", "truthy", "sigma>=1e-4,tau>=0", "default"))
         jobs.append((i, "ranks", "None", "falsy", "sigma>=1e-4,tau>=0", "default"))
+        jobs.append((i, "ranks", "any", "model-truthy", "sigma>=1e-4,tau>=0", "default"))
         jobs.append((i, "ranks", "truthy", "truthy", "sigma>=0,tau>0", "default"))
         jobs.append((i, "ranks", "any", "falsy", "sigma>=1e-4,tau>=0", "callback"))
     seen = set()
@@ -233,4 +240,4 @@ def run(prog: Program, rep: Report, tier: str = "quick") -> None:
     rep.floor("R6.2", n)
     rep.floor("R6.3", n)
     rep.floor("R6.4", n)
-    rep.floor("R6.5", 2 * n)
+    rep.floor("R6.5", 3 * n)
